@@ -51,20 +51,52 @@ def lname(f):
     return ".".join(str(x) for x in f)
 
 
-FALSE_ATOMS = []      # per task: atoms known to be false on every path (index disequalities from the precondition)
+DISTINCT = []      # per task: pairs of index terms known to differ on every path (from the precondition)
 
 
-def norm(e):
-    """simplify a term using the index disequalities of the precondition (p1 != p2), so that
-    Select(Store(a, p2, .), p1) reduces syntactically and the polynomial back end sees plain atoms"""
-    if FALSE_ATOMS:
-        e = z3.simplify(e, expand_select_store=True)
-        e = z3.substitute(e, *[(a, z3.BoolVal(False)) for a in FALSE_ATOMS])
-    return z3.simplify(e)
+def _differ(i, j):
+    for a, b in DISTINCT:
+        if (a.eq(i) and b.eq(j)) or (a.eq(j) and b.eq(i)):
+            return True
+    ci, cj = const_int(i), const_int(j)
+    return ci is not None and cj is not None and ci != cj
+
+
+def norm(e, cache=None):
+    """read-over-write normalisation using the index disequalities of the precondition (p1 != p2):
+    Select(Store(a, p2, w), p1) -> Select(a, p1), Select(Store(a, p1, w), p1) -> w; so that the polynomial
+    back end sees plain atoms P.vx[p1], P.vx[p2]"""
+    if cache is None:
+        cache = {}
+    k = e.get_id()
+    if k in cache:
+        return cache[k]
+    if z3.is_app(e) and e.num_args() > 0:
+        args = [norm(c, cache) for c in e.children()]
+        if z3.is_select(e):
+            a, i = args
+            while z3.is_store(a):
+                b, j, w = a.children()
+                if i.eq(j):
+                    a = None
+                    r = w
+                    break
+                if _differ(i, j):
+                    a = b
+                    continue
+                break
+            if a is not None:
+                r = z3.Select(a, i)
+        else:
+            r = e.decl()(*args)
+    else:
+        r = e
+    cache[k] = r
+    return r
 
 
 def sel(arrs, f, i):
-    return norm(z3.Select(arrs[(f,)], i))
+    return z3.simplify(norm(z3.Select(arrs[(f,)], i)))
 
 
 def mk_collision(v, s, order=None):
@@ -73,7 +105,7 @@ def mk_collision(v, s, order=None):
     c = v.struct("struct reb_collision", "c")
     p1, p2 = c.p1, c.p2
     v.assume(0 <= p1, p1 < s.N, 0 <= p2, p2 < s.N, p1 != p2)
-    FALSE_ATOMS[:] = [p1 == p2, p2 == p1]
+    DISTINCT[:] = [(p1, p2)]
     if order == "p1<p2":
         v.assume(p1 < p2)
     elif order == "p1>p2":
@@ -281,11 +313,40 @@ def hs_setup(v, eps_mode, mcv_zero):
 
         def cb(eng, st, args, n):
             # the callback is handed the normal component of the relative velocity: arg * |x21| = v21 . x21
+            # (.normal_component proves rho * vx21nn = v21 . x21 for that local)
             a = as_real(args[1])
-            eng.oblige(st, v.task.name + ".callback_gets_normal_velocity.sq", a * a * s.d2 == s.sdot * s.sdot)
+            eng.oblige(st, v.task.name + ".callback_gets_normal_velocity", a == eng.local(st, "vx21nn"))
             return s.eps
         v.contract("user_coefficient_of_restitution", cb)
     return s
+
+
+def hs_normal_component_cut(v, s):
+    """Cut point inside reb_collision_resolve_hardsphere, at the sqrt() call that follows the computation of the
+    rotated relative velocity vx21nn: proves that vx21nn is the component of the relative velocity along the line of
+    centres (rho * vx21nn = v21 . x21 with rho = |x21|, from the atan2 axioms) and hence vx21nn <= 0 for an
+    approaching pair with distinct centres; the proven fact is then available to the rest of the path (it decides the
+    `dvx2 < mindv` clamp when minimum_collision_velocity = 0)."""
+    from engine.csym import Obligation
+    R = z3.RealSort()
+
+    def hook(eng, st, args, n):
+        if eng.callstack and eng.callstack[-1] == "reb_collision_resolve_hardsphere" and not st.ghost.get("hs_cut"):
+            st.ghost["hs_cut"] = True
+            vn = eng.local(st, "vx21nn")
+            rho = eng.uf("hypot", R, R, R)(simp(eng.local(st, "y21n")), simp(eng.local(st, "x21")))
+            s.vn, s.rho = vn, rho
+            nm = eng.prefix + v.task.name
+            eng.oblige(st, v.task.name + ".normal_component", rho * vn == s.sdot)
+            # generic lemma (a, b, S, D arbitrary reals), used at a=rho, b=vx21nn, S=v21.x21, D=|x21|^2
+            a, b, S, D = z3.Reals("lem_a lem_b lem_S lem_D")
+            small = [a * b == S, a >= 0, a * a == D, D != 0, S <= 0]
+            ob = Obligation(nm + ".normal_component_nonpositive", small, b <= 0, "lemma")
+            eng.obligations.append(ob)
+            eng.oblige(st, v.task.name + ".rho_is_distance", rho * rho == s.d2)
+            st.assume(z3.Implies(s.d2 != 0, vn <= 0))
+        return eng.math1(st, "sqrt", args[0], n)
+    v.contract("sqrt", hook)
 
 
 def hs_post(v, s, ret, energy, restitution):
@@ -321,7 +382,12 @@ def hs_post(v, s, ret, energy, restitution):
     post_dot = sum(a * b for a, b in zip(post_rel, X))
     if restitution == "exact":
         v.prove("restitution", post_dot == -s.eps * s.sdot)
-        v.lemma("separating", [post_dot == -s.eps * s.sdot, s.eps >= 0, s.approaching], post_dot >= 0)
+        # separating: generic lemma (A, E, S arbitrary reals) used at A = post_dot, E = eps, S = v21.x21 (<= 0: approaching)
+        from engine.csym import Obligation
+        A, E, S = z3.Reals("lem_A lem_E lem_S")
+        ob = Obligation(v.eng.prefix + v.task.name + ".separating", [A == -E * S, E >= 0, z3.Not(S > 0)], A >= 0, "lemma")
+        v.eng.obligations.append(ob)
+        v.prove("separating.eps_nonneg", s.eps >= 0)
     elif restitution == "atleast":
         v.prove("restitution_at_least", post_dot >= -s.eps * s.sdot, order=("z3", "cvc5"))
     if energy:
@@ -337,7 +403,318 @@ def _(v):
     """default restitution (eps = 1), minimum_collision_velocity = 0, image at rest (gb.v = 0):
     momentum, central impulse, normal relative velocity exactly reversed (pair separating), kinetic energy conserved."""
     s = hs_setup(v, "default", True)
+    hs_normal_component_cut(v, s)
     v.assume(s.m1 + s.m2 != 0, s.d2 != 0)
     v.assume(*[s.c.gb["v" + f] == 0 for f in "xyz"])
     ret = v.call("reb_collision_resolve_hardsphere", s.rp, s.c)
     hs_post(v, s, ret, energy=True, restitution="exact")
+
+
+@P.task("hardsphere.general", fn="reb_collision_resolve_hardsphere")
+def _(v):
+    """user restitution callback (eps arbitrary), minimum_collision_velocity arbitrary, moving image (shear):
+    momentum, central impulse, frame, early returns; the callback is handed the normal relative velocity."""
+    s = hs_setup(v, "callback", False)
+    hs_normal_component_cut(v, s)
+    v.assume(s.m1 + s.m2 != 0)
+    ret = v.call("reb_collision_resolve_hardsphere", s.rp, s.c)
+    hs_post(v, s, ret, energy=False, restitution=None)
+
+
+@P.task("hardsphere.restitution", fn="reb_collision_resolve_hardsphere")
+def _(v):
+    """user restitution callback with 0 <= eps, minimum_collision_velocity = 0, moving image allowed:
+    post-collision normal relative velocity = -eps * pre-collision one, hence the pair is separating."""
+    s = hs_setup(v, "callback", True)
+    hs_normal_component_cut(v, s)
+    v.assume(s.m1 + s.m2 != 0, s.d2 != 0, s.eps >= 0)
+    ret = v.call("reb_collision_resolve_hardsphere", s.rp, s.c)
+    hs_post(v, s, ret, energy=False, restitution="exact")
+
+
+@P.task("hardsphere.default_is_elastic_with_moving_image", fn="reb_collision_resolve_hardsphere")
+def _(v):
+    """NULL callback = restitution 1 also for a sheared image (gb.v != 0): restitution clause only."""
+    s = hs_setup(v, "default", True)
+    hs_normal_component_cut(v, s)
+    v.assume(s.m1 + s.m2 != 0, s.d2 != 0)
+    ret = v.call("reb_collision_resolve_hardsphere", s.rp, s.c)
+    hs_post(v, s, ret, energy=False, restitution="exact")
+
+
+@P.task("hardsphere.defined_for_massless_pair", fn="reb_collision_resolve_hardsphere")
+def _(v):
+    """No precondition on the masses (two test particles may overlap): definedness of m/(m1+m2)."""
+    s = hs_setup(v, "default", True)
+    hs_normal_component_cut(v, s)
+    v.assume(s.m1 >= 0, s.m2 >= 0, s.d2 != 0)
+    v.assume(s.overlap, s.approaching, s.x21[0] > 0)
+    v.call("reb_collision_resolve_hardsphere", s.rp, s.c)
+
+
+# ============================================================================ search loops
+P.trust("iteration-space rule: a loop `for (int k = a; cond(k); k++)` whose body never writes k and for which "
+        "cond(k) <=> k <= b (resp. k < b) is proved visits every integer a <= k <= b (resp. < b); a body contract proved for "
+        "an arbitrary iteration of the nest, together with the proved monotone frame (entries below collisions_N are never "
+        "rewritten, collisions_N never decreases), then gives: every pair satisfying the hit condition is in the list when "
+        "the nest ends (DESIGN 3.3)")
+P.assume("search tasks: no SIGINT pending (reb_sigint == 0); N_var == 0; the integrator is not MERCURIUS/TRACE (no "
+         "encounter map); boundary = periodic for the ghost-box shifts (open gives the same shifts, shear is not covered)")
+P.assume("search tasks are stated at a cut: the state at every loop head of the nest is an arbitrary one satisfying "
+         "0 <= collisions_N <= N_allocated_collisions = length(r->collisions) with the particles unchanged; the cut "
+         "invariant is proved initially and after an arbitrary iteration")
+P.assume("malloc/realloc succeed (the code under test does not check for NULL)")
+
+CFIELDS = [("p1",), ("p2",), ("gb", "x"), ("gb", "y"), ("gb", "z"), ("gb", "vx"), ("gb", "vy"), ("gb", "vz"), ("ri",)]
+
+
+class Nest:
+    """Arbitrary-iteration execution of a loop nest of one function (custom loop handlers).
+
+    loops: list of (ordinal, variable name, init term, cond_spec(K) -> Bool); the innermost loop's handler runs
+    `after(eng, st, nest)` at the end of its body and ends the path."""
+
+    def __init__(self, v, fn, loops, after, enter=None):
+        self.v, self.fn, self.loops, self.after, self.enter = v, fn, loops, after, enter
+        self.K = {}
+        for idx, (ordinal, var, init, cond_spec) in enumerate(loops):
+            v.loop(fn, ordinal, invariant=self._handler(idx), mode="custom")
+
+    def _handler(self, idx):
+        ordinal, var, init, cond_spec = self.loops[idx]
+        v = self.v
+        tag = "%s.nest.%s" % (v.task.name, var)
+
+        def handler(eng, st, n, cond, inc, body):
+            if idx == 0 and self.enter is not None:
+                self.enter(eng, st, self)          # cut invariant initially + generic loop-head state
+            cur0 = eng.local(st, var)
+            init_t = init(self) if callable(init) else init
+            eng.oblige(st, tag + ".header.init", cur0 == init_t)
+            K = z3.Int("%s_it" % var)
+            self.K[var] = K
+            p = eng.local_ptr(st, var)
+            eng.write(st, p, K)
+            st.assume(K >= init_t)
+            c = as_bool(eng.rvalue(st, cond))
+            eng.oblige(st, tag + ".header.cond", c == cond_spec(self, K))
+            # effect of the increment, on a copy
+            s2 = st.clone()
+            eng.rvalue(s2, inc)
+            eng.oblige(s2, tag + ".header.inc", eng.local(s2, var) == K + 1)
+            st.assume(c)
+            fl = eng.exec_stmt(st, body)
+            if fl.kind not in (Flow.NORMAL, Flow.CONTINUE):
+                eng.oblige(st, tag + ".no_early_exit", z3.BoolVal(False))
+                raise PathEnd("nest")
+            if idx != len(self.loops) - 1:
+                # the inner handler ended every path that reached the inner loop
+                raise PathEnd("nest")
+            for (_o, var2, _i, _c) in self.loops:
+                eng.oblige(st, tag + ".counter_untouched." + var2, eng.local(st, var2) == self.K[var2])
+            self.after(eng, st, self)
+            raise PathEnd("nest")
+        return handler
+
+
+def search_setup(v, mode, ghosts, null_list):
+    """simulation for the search tasks: particles, a collisions list (NULL or a block of N_allocated_collisions)"""
+    s = mk_sim(v)
+    r = s.r
+    r.N_var = z3.IntVal(0)
+    r.collision = v.enumc(mode)
+    r.boundary = v.enumc("REB_BOUNDARY_PERIODIC")
+    v.assume(z3.Int("g_reb_sigint") == 0)
+    s.NC = v.int("N_allocated_collisions")
+    r.N_allocated_collisions = s.NC
+    if null_list:
+        r.collisions = NULL
+        v.assume(s.NC == 0)
+        s.coll = None
+    else:
+        s.coll = v.array("struct reb_collision", s.NC, "C")
+        r.collisions = s.coll.ptr
+        v.assume(s.NC >= 1)
+        v.eng.heap_set(v.st, s.coll.obj.id, owner="callee", kind="heap")
+    if ghosts == 0:
+        r.N_ghost_x = r.N_ghost_y = r.N_ghost_z = z3.IntVal(0)
+        s.G = [z3.IntVal(0)] * 3
+    else:
+        s.G = [v.int("N_ghost_" + a) for a in "xyz"]
+        r.N_ghost_x, r.N_ghost_y, r.N_ghost_z = s.G
+        v.assume(*[g >= 0 for g in s.G])
+    s.ring = [z3.If(g > 1, 1, g) for g in s.G]        # "only the inner-most ring": min(N_ghost, 1)
+    s.box = [r.boxsize.x, r.boxsize.y, r.boxsize.z]
+    return s
+
+
+def coll_arrays(v, st, r_sobj):
+    p = v.eng._lazy_field(r_sobj, "collisions", st)
+    if not isinstance(p, Ptr) or p.obj is None:
+        return None, None
+    a = st.mem.get(p.obj)
+    return a, {f: v.eng._leaf_array(a, f) for f in CFIELDS}
+
+
+def search_enter(v, s):
+    def enter(eng, st, nest):
+        # cut invariant holds on entry of the nest (collisions_N == 0) ...
+        cn0 = eng.local(st, "collisions_N")
+        eng.oblige(st, v.task.name + ".cut.init", z3.And(0 <= cn0, cn0 <= s.NC))
+        # ... and the loop-head state is an arbitrary one satisfying it
+        s.cN = z3.Int("collisions_N_head")
+        eng.write(st, eng.local_ptr(st, "collisions_N"), s.cN)
+        st.assume(z3.And(0 <= s.cN, s.cN <= s.NC))
+        arr, s.C0 = coll_arrays(v, st, s.r._s)
+    return enter
+
+
+def search_after(v, s, hit_of):
+    """body contract of the innermost loop: appended <=> hit, monotone frame, cut invariant re-established"""
+    def after(eng, st, nest):
+        t = v.task.name
+        K = nest.K
+        r = s.r._s
+        I, J = K["i"], K["j"]
+        shift = [s.box[0] * z3.ToReal(K["gbx"]), s.box[1] * z3.ToReal(K["gby"]), s.box[2] * z3.ToReal(K["gbz"])]
+        hit = hit_of(eng, st, s, I, J, shift)
+        cN1 = eng.local(st, "collisions_N")
+        arr1, C1 = coll_arrays(v, st, r)
+        NC1 = eng._lazy_field(r, "N_allocated_collisions", st)
+        appended = cN1 == s.cN + 1
+        eng.oblige(st, t + ".body.hit_is_appended", z3.Implies(hit, appended))
+        eng.oblige(st, t + ".body.only_hits_are_appended", z3.Implies(z3.Not(hit), cN1 == s.cN))
+        eng.oblige(st, t + ".body.at_most_one", z3.Or(cN1 == s.cN, appended))
+        if arr1 is not None:
+            rec = {f: z3.Select(C1[f], s.cN) for f in CFIELDS}
+            eng.oblige(st, t + ".body.record.p1", z3.Implies(appended, rec[("p1",)] == I))
+            eng.oblige(st, t + ".body.record.p2", z3.Implies(appended, rec[("p2",)] == J))
+            eng.oblige(st, t + ".body.record.distinct", z3.Implies(appended, rec[("p1",)] != rec[("p2",)]))
+            for a, f in enumerate("xyz"):
+                eng.oblige(st, t + ".body.record.gb." + f, z3.Implies(appended, rec[("gb", f)] == shift[a]))
+                eng.oblige(st, t + ".body.record.gb.v" + f, z3.Implies(appended, rec[("gb", "v" + f)] == 0))
+            if s.C0 is not None:
+                k = z3.Int("k_entry")
+                for f in CFIELDS:
+                    if f == ("ri",):
+                        continue
+                    eng.oblige(st, t + ".body.earlier_entries_kept." + lname(f),
+                               z3.Implies(z3.And(0 <= k, k < s.cN), z3.Select(C1[f], k) == z3.Select(s.C0[f], k)))
+            ln = arr1.length
+            eng.oblige(st, t + ".cut.preserved", z3.And(0 <= cN1, cN1 <= NC1, NC1 == ln))
+        else:
+            eng.oblige(st, t + ".cut.preserved", z3.And(cN1 == 0, NC1 == 0))
+        # frame: the nest writes nothing but the list
+        n = cur(s)
+        for f in s.leaves:
+            eng.oblige(st, t + ".frame.particles." + lname(f), n[f] == s.old[f])
+        eng.oblige(st, t + ".frame.N", z3.And(s.r.N == s.N, s.r.N_var == 0))
+    return after
+
+
+def direct_hit(eng, st, s, I, J, shift):
+    o = s.old
+    d = [sel(o, f, I) + shift[a] - sel(o, f, J) for a, f in enumerate("xyz")]
+    dv = [sel(o, "v" + f, I) - sel(o, "v" + f, J) for f in "xyz"]
+    rs = sel(o, "r", I) + sel(o, "r", J)
+    overlapping = sum(a * a for a in d) <= rs * rs
+    approaching = z3.Not(sum(a * b for a, b in zip(d, dv)) > 0)
+    return z3.And(I != J, overlapping, approaching)
+
+
+def ring_loops(s, first):
+    out = []
+    for a, nm in enumerate(("gbx", "gby", "gbz")):
+        out.append((first + a, nm, -s.ring[a], (lambda nest, K, a=a: K <= s.ring[a])))
+    return out
+
+
+for gtag, ghosts in (("box", 0), ("ghosts", 1)):
+    for ltag, null_list in (("list", False), ("nolist", True)):
+        @P.task("search.direct.%s.%s" % (gtag, ltag), fn="reb_collision_search")
+        def _(v, ghosts=ghosts, null_list=null_list):
+            """REB_COLLISION_DIRECT: the nest (gbx, gby, gbz, i, j) ranges over the inner ring of images x all ordered
+            pairs; an arbitrary iteration appends (i, j, shift) iff i != j, |x_i + shift - x_j|^2 <= (r_i+r_j)^2 and
+            (x_i + shift - x_j).(v_i - v_j) <= 0; list growth (realloc) memory-safe; nothing else is written."""
+            s = search_setup(v, "REB_COLLISION_DIRECT", ghosts, null_list)
+            loops = ring_loops(s, 0) + [
+                (3, "i", z3.IntVal(0), lambda nest, K: K < s.N),
+                (4, "j", z3.IntVal(0), lambda nest, K: K < s.N)]
+            Nest(v, "reb_collision_search", loops, search_after(v, s, direct_hit), enter=search_enter(v, s))
+            v.call("reb_collision_search", s.rp)
+
+
+P.assume("LINE search: dt_last_done != 0 (a step has been done).  For a pair with zero relative velocity t_closest is 0/0: "
+         "the task search.line.*.dv0 treats the quotient as an arbitrary real, which covers the IEEE outcome NaN (range "
+         "test false); definedness checks are switched off in that task only")
+
+
+def line_after(v, s, dv0):
+    base = None
+
+    def hit_code(eng, st, s_, I, J, shift):
+        o = s.old
+        rs = sel(o, "r", I) + sel(o, "r", J)
+        return eng.local(st, "rmin2_ab") <= rs * rs
+
+    generic = search_after(v, s, hit_code)
+
+    def after(eng, st, nest):
+        t = v.task.name
+        K = nest.K
+        I, J = K["i"], K["j"]
+        o = s.old
+        shift = [s.box[0] * z3.ToReal(K["gbx"]), s.box[1] * z3.ToReal(K["gby"]), s.box[2] * z3.ToReal(K["gbz"])]
+        d1 = [sel(o, f, I) + shift[a] - sel(o, f, J) for a, f in enumerate("xyz")]
+        dv = [sel(o, "v" + f, I) - sel(o, "v" + f, J) for f in "xyz"]
+        dt = s.r.dt_last_done
+
+        def q(lam):
+            # squared distance of the two straight-line paths at the fraction lam of the last step, counted backwards
+            return sum((d1[a] - lam * dt * dv[a]) ** 2 for a in range(3))
+        rm = eng.local(st, "rmin2_ab")
+        lam = z3.Real("lam")
+        eng.oblige(st, t + ".body.min.lower_bound", z3.Implies(z3.And(0 <= lam, lam <= 1), rm <= q(lam))).meta["order"] = ("z3", "cvc5")
+        if dv0:
+            eng.oblige(st, t + ".body.min.attained", rm == q(z3.RealVal(0))).meta["order"] = ("z3", "cvc5")
+        else:
+            ls = sum(a * b for a, b in zip(d1, dv)) / (sum(b * b for b in dv) * dt)
+            eng.oblige(st, t + ".body.min.attained",
+                       z3.Or(rm == q(z3.RealVal(0)), rm == q(z3.RealVal(1)), z3.And(0 <= ls, ls <= 1, rm == q(ls)))).meta["order"] = ("z3", "cvc5")
+        eng.oblige(st, t + ".body.pairs_once", I < J)
+        generic(eng, st, nest)
+    return after
+
+
+for gtag, ghosts in (("box", 0), ("ghosts", 1)):
+    for dtag in ("moving", "dv0"):
+        @P.task("search.line.%s.%s" % (gtag, dtag), fn="reb_collision_search")
+        def _(v, ghosts=ghosts, dtag=dtag):
+            """REB_COLLISION_LINE: nest (gbx, gby, gbz, i, j>i); the three-candidate minimum rmin2_ab equals the minimum
+            over the last step of the squared distance of the straight-line paths; appended iff that minimum is
+            <= (r_i+r_j)^2."""
+            s = search_setup(v, "REB_COLLISION_LINE", ghosts, False)
+            v.eng.merge_ifs = False
+            v.assume(s.r.dt_last_done != 0)
+            loops = ring_loops(s, 5) + [
+                (8, "i", z3.IntVal(0), lambda nest, K: K < s.N),
+                (9, "j", (lambda nest: nest.K["i"] + 1), lambda nest, K: K < s.N)]
+            dv0 = dtag == "dv0"
+            if dv0:
+                v.eng.check_defined = False
+
+            def enter(eng, st, nest, inner=search_enter(v, s)):
+                inner(eng, st, nest)
+            nest = Nest(v, "reb_collision_search", loops, line_after(v, s, dv0), enter=enter)
+            # relative velocity of the arbitrary pair: constrained when the pair is known (at the j-loop head)
+            orig = nest.after
+
+            def after(eng, st, nest_):
+                orig(eng, st, nest_)
+            I, J = z3.Int("i_it"), z3.Int("j_it")
+            dvs = [sel(s.old, "v" + f, I) - sel(s.old, "v" + f, J) for f in "xyz"]
+            if dv0:
+                v.assume(*[d == 0 for d in dvs])
+            else:
+                v.assume(sum(d * d for d in dvs) != 0)
+            v.call("reb_collision_search", s.rp)
